@@ -454,7 +454,10 @@ def _compare(ctx, e, loaded, route, sig_extra=''):
         if e['kind'] in ('rdms', 'data') and not any(np.isnan(np.asarray(a, dtype=float)).any() for a in arrs):
             if rec_any(src) == e['twin'] or not diff_rec(rec_any(src), e['twin']):
                 eq = (loaded == src)
-                self_eq = (src == src)          # a missing (NaN) label makes the library's == false even for the object itself
+                import pickle as _pickle
+                # a missing (NaN) label makes the library's == false even for an exact replica of the object (a replica with
+                # fresh float objects: deepcopy would keep the very same NaN object and == short-cuts on identity)
+                self_eq = (_pickle.loads(_pickle.dumps(src)) == src)
                 if isinstance(eq, (bool, np.bool_)) and not eq and isinstance(self_eq, (bool, np.bool_)) and self_eq:
                     ctx.violation('fs_model.eq', f'load:{e["kind"]}:{e["ft"]}:library-eq',
                                   f'loaded object is field-wise equal to the saved one but the library\'s == returns False')
